@@ -478,6 +478,13 @@ def gen_inputs(seed, chunk_id, ncases, seeds, exhaustive_trunc):
                                    dtype=np.uint8))
         if rng.random() < 0.02:
             d = seeds[nm]   # unmutated: must load
+        if rng.random() < 0.03:
+            # a well-formed calibration file of a random type and random
+            # dimensions, allowed or not (sometimes mutated once)
+            nm_ = "synth.vnacal"
+            d = gen_files.synth_cal_file(rng)
+            if rng.random() < 0.3:
+                d = gen_files.mutate(d, rng)
         inputs.append((nm_, d[:20000], "mut"))
     return inputs
 
